@@ -80,7 +80,7 @@ Definition split_by_lines (tokens : list vtok) : list (list vtok) :=
     fold_left (fun '(result, line) t =>
                  match t with
                  | VStr s =>
-                     match splitlines s with
+                     match split_crlf s with   (* repaired: was str.splitlines() *)
                      | [] => (result, line ++ [VStr []])
                      | l0 :: ls =>
                          fold_left (fun '(res, ln) l => (res ++ [ln], [VStr l])) ls (result, line ++ [VStr l0])
